@@ -1135,6 +1135,55 @@ def np_argsort(ex, args, kw):
     return Vec(out, "array")
 
 
+@lib(NP, "lexsort")
+def np_lexsort(ex, args, kw):
+    """np.lexsort(keys) for up to five entries: an indirect STABLE sort by the LAST key first, then the one before, ... (numpy
+    documents lexsort as stable).  Keys are short concrete-length sequences of symbolic numbers or of concrete strings / numbers."""
+    keys = args[0]
+    if isinstance(keys, Vec):
+        keys = keys.items
+    if not isinstance(keys, (list, tuple)) or not keys:
+        raise Unsupported("np.lexsort: keys")
+    cols = []
+    for k in keys:
+        items = k.items if isinstance(k, Vec) else (list(k) if isinstance(k, (list, tuple)) else None)
+        if items is None and isinstance(k, NDArray) and k.ndim == 1 and isinstance(as_const(k.shape[0]) if is_z3(k.shape[0]) else k.shape[0], int):
+            nn = as_const(k.shape[0]) if is_z3(k.shape[0]) else k.shape[0]
+            items = [k.elem((i,)) for i in range(nn)]
+        if items is None:
+            raise Unsupported("np.lexsort of a symbolic-length key")
+        cols.append(items)
+    n = len(cols[0])
+    if any(len(c) != n for c in cols):
+        raise SymRaise("ValueError", "all keys need to be the same shape")
+    if n > 5:
+        raise Unsupported("np.lexsort of more than 5 entries")
+
+    def less_eq(c, j, i):
+        x, y = c[j], c[i]
+        if isinstance(x, str) and isinstance(y, str):
+            return z3.BoolVal(x < y), z3.BoolVal(x == y)
+        if isinstance(x, str) or isinstance(y, str):
+            raise Unsupported("np.lexsort: key of mixed / symbolic text")
+        return to_z3(x) < to_z3(y), to_z3(x) == to_z3(y)
+
+    def before(j, i):
+        # entry j sorts before entry i: compare from the last key down; ties by position (stable)
+        e = z3.BoolVal(j < i)
+        for c in cols:                      # first key = least significant
+            lt, eq = less_eq(c, j, i)
+            e = z3.Or(lt, z3.And(eq, e))
+        return e
+    rank = [z3.Sum([z3.If(before(j, i), 1, 0) for j in range(n) if j != i]) if n > 1 else z3.IntVal(0) for i in range(n)]
+    out = []
+    for p_ in range(n):
+        e = z3.IntVal(n - 1)
+        for i in range(n - 2, -1, -1):
+            e = z3.If(rank[i] == p_, z3.IntVal(i), e)
+        out.append(simp(e))
+    return Vec(out, "array")
+
+
 @lib(NP, "unique")
 def np_unique(ex, args, kw):
     """np.unique of a CONCRETE sequence (file names of a skeleton, small integer lists): sorted distinct values.  Symbolic
